@@ -939,7 +939,7 @@ func (m *Machine) obligation(kind, msg, where string, bad *term.Term) bool {
 		// the incremental session gave up: with at most 16 free input bits an exact enumeration of a
 		// few hundred million node evaluations beats a minutes-long fresh solve (and finds
 		// counter-models in Galois-field arithmetic that the solvers search for in vain)
-		if res, mod := m.truthTableCost(bad, 16, 80_000_000); res != solver.Unknown {
+		if res, mod := m.truthTableCost(bad, 16, 400_000_000); res != solver.Unknown {
 			m.Stats.ByTruthTable++
 			r = res
 			if mod != nil {
